@@ -309,6 +309,19 @@ BASIS_AB = {"ground-rydberg": ("r", "g"), "digital": ("g", "h"), "XY": ("u", "d"
 # --------------------------------------------------------------------------
 
 
+_C6 = {}
+
+
+def c6_table():
+    """C6/hbar per Rydberg level, read from the data file itself (not through BaseDevice.interaction_coeff)."""
+    if not _C6:
+        import json
+        import os
+
+        _C6.update(json.load(open(os.path.join(core.REPO_ROOT, "pulser-core/pulser/devices/interaction_coefficients/C6_coeffs.json"))))
+    return _C6
+
+
 def wf_list(wf):
     a = wf.samples.as_array(detach=True)
     return list(a.flat) if a.dtype == object else [float(x) for x in a]
@@ -436,7 +449,7 @@ class Oracle:
             r = eig.index("r")
             for i, j in itertools.combinations(range(self.N), 2):
                 R = math.dist(self.coords3(self.qids[i]), self.coords3(self.qids[j]))
-                U = dev.interaction_coeff / R**6
+                U = c6_table()[str(dev.rydberg_level)] / R**6
                 self.add_pair(H, d, i, j, (r, r), (r, r), SCplx(U, 0.0))
                 for k in self._pair_keys(d, i, j, (r, r), (r, r)):
                     scale[k] = scale.get(k, 0.0) + abs(U)
